@@ -266,9 +266,10 @@ type asmState struct {
 }
 
 const (
-	asmDstBase  = 0xc000100000
-	asmSrcBase  = 0xc000200000
-	asmDictBase = 0xc000300000
+	// far apart: a region may be as large as the biggest block (8 MiB) plus slack
+	asmDstBase  = 0xc000000000
+	asmSrcBase  = 0xc100000000
+	asmDictBase = 0xc200000000
 )
 
 func (ex *Exec) asmDecodeBlock(dst, src, dict Slice) Value {
@@ -288,7 +289,7 @@ func (ex *Exec) asmDecodeBlock(dst, src, dict Slice) Value {
 			r.off = ex.concInt(s.off)
 			r.n = ex.concInt(s.len)
 			if r.obj.released {
-				ex.event("use-after-put", "assembly decoder given a buffer released to the pool")
+				ex.useAfterPut("assembly decoder given a buffer released to the pool")
 			}
 		}
 		st.regions = append(st.regions, r)
